@@ -13,6 +13,7 @@ single requests
 * `codec dec <hexbytes>`       → `ok <len> <instr>` | `err underflow <need> <have>` |
                                  `err undefined|unpredictable|reserved <h0> <h1|->` | `panic`
 * `codec spec <hexbytes>`      → `some <instr>` | `none`   (2 or 4 bytes, through `Arm.decode`)
+* `codec specenc <instr>`      → all encodings the table assigns to exactly this instruction (hex bytes) | `none`
 * `codec spectab16 <lo> <hi>`  → `Arm.decode [h]` for h in lo..hi, entries separated by `|`, `-` = none
 
 bulk requests (the model enumerates the sub-domain itself; reply `<digest> <count of ok/some>`)
@@ -357,6 +358,57 @@ def encdom (name : String) (rg : Ranged) : String :=
   | none => "bad-op"
   | some t => (enumSlots rg t (kinds[t]!).toList [] {}).show
 
+
+/-! ### search of the specification table for the encodings of one instruction (`codec specenc`) -/
+
+/-- all words that agree with the fixed bits of a diagram (most significant character first) -/
+def wordsFitting : List Char → List Nat
+  | [] => [0]
+  | c :: cs =>
+    let rest := wordsFitting cs
+    let n := Arm.width cs
+    if c = ' ' then rest
+    else if c = '0' then rest
+    else if c = '1' then rest.map (· + 2 ^ n)
+    else rest ++ rest.map (· + 2 ^ n)
+
+/-- replace the characters of field `f` by the binary digits of `v` -/
+def substField (f : Char) (v : Nat) : List Char → List Char
+  | [] => []
+  | c :: cs =>
+    if c = f then
+      let k := (cs.filter (· = f)).length
+      (if v / 2 ^ k % 2 = 1 then '1' else '0') :: substField f v cs
+    else c :: substField f v cs
+
+def freeBits (cs : List Char) : Nat := (cs.filter fun c => c ≠ ' ' ∧ c ≠ '0' ∧ c ≠ '1').length
+
+/-- Every row is searched over all assignments of its fields.  Only BL has more than 16 field bits; there
+the low 22 bits of the offset determine imm10 (`i`) and imm11 (`L`), which are substituted into the
+diagram, leaving the 8 choices of S, J1, J2.  Every hit is confirmed through `Arm.decode`. -/
+def specenc (i : Instr) : List (List Nat) :=
+  Arm.table.foldl (fun acc rw =>
+    let cs0 := rw.pat.toList
+    let cs := match i with
+      | .bl off =>
+        if freeBits cs0 > 16 then
+          substField 'i' (off / 4096 % 1024).toNat (substField 'L' (off / 2 % 2048).toNat cs0)
+        else cs0
+      | _ => cs0
+    let n := Arm.width cs
+    -- a row builds one constructor (every `ins` of the table is `fun f => .ctor …`): rows of another
+    -- constructor are skipped after looking at the instruction of their first fitting word
+    let sameCtor := match (wordsFitting (cs.map fun c => if c = ' ' ∨ c = '0' ∨ c = '1' then c else '0')).head? with
+      | some w0 => (fieldsOf (rw.ins fun c => Arm.field w0 c cs n 0)).1 == (fieldsOf i).1
+      | none => false
+    if freeBits cs > 16 ∨ !sameCtor then acc
+    else
+      let hits := (wordsFitting cs).filter fun w => Arm.rowDecode rw w n == some (some i)
+      let hws := hits.map fun w => if n = 16 then [w] else [w / 65536, w % 65536]
+      acc ++ hws.filter fun h => Arm.decode h == some i) []
+
+def showHws (hws : List Nat) : String := bytesToHex (toBytes hws)
+
 /-! ### requests -/
 
 def hwsOfBytes : List Nat → Option (List Nat)
@@ -376,6 +428,11 @@ def handle : List String → String
     | none => "bad-op"
   | ["spec", bs] => match (parseHexBytes bs).bind hwsOfBytes with
     | some hws => showSpec (Arm.decode hws)
+    | none => "bad-op"
+  | "specenc" :: i => match parseInstr i with
+    | some i => match specenc i with
+      | [] => "none"
+      | l => " ".intercalate (l.map showHws)
     | none => "bad-op"
   | ["spectab16", lo, hi] => match parseHex lo, parseHex hi with
     | some lo, some hi =>
